@@ -551,7 +551,7 @@ def make_inputs(ctx):
     growth_inputs(ctx, add)
     strinit_inputs(ctx, add)
     macroarg_inputs(ctx, add)
-    pool_inputs(ctx, add, {"C07": 150 if ctx.quick else 1200}, 25 if ctx.quick else 300)
+    pool_inputs(ctx, add, {"C07": 150 if ctx.quick else 400}, 25 if ctx.quick else 80)
     texts = [(n, t.decode("latin-1"), a, m) for n, t, a, m in cor]
     pool = sorted({tok for _, t, _, _ in texts for tok in TOKRE.findall(t) if not tok.isspace() and len(tok) < 40}) + EXTRA_TOKS
     ntrunc, nmut = (60, 260) if ctx.quick else (200, 1200)
